@@ -114,6 +114,13 @@ func ParseReadWriteMultipleRegistersRequestTCP(data []byte) (*ReadWriteMultipleR
 	if err != nil {
 		return nil, err
 	}
+	if len(data) < 17 {
+		tmpErr := NewErrorParseTCP(ErrIllegalDataValue, "received data length too short to be valid packet")
+		tmpErr.Packet.TransactionID = header.TransactionID
+		tmpErr.Packet.UnitID = data[6]
+		tmpErr.Packet.Function = FunctionReadWriteMultipleRegisters
+		return nil, tmpErr
+	}
 	unitID := data[6]
 	if data[7] != FunctionReadWriteMultipleRegisters {
 		tmpErr := NewErrorParseTCP(ErrIllegalFunction, "received function code in packet is not 0x17")
